@@ -161,6 +161,9 @@ type Obligation struct {
 	SMTFile string
 	// optional extra hypothesis (known-finding region exclusion)
 	Extra *Term
+	relaxSat bool
+	timedOut bool
+	relaxOut string
 }
 
 type VC struct {
@@ -405,7 +408,15 @@ type solveResult struct {
 	secs    float64
 }
 
+// at most this many solver processes at a time (the machine has 16 cores)
+var solverSem = make(chan struct{}, 15)
+
 func runSolver(ctx context.Context, sc SolverCfg, file string, timeoutS int) solveResult {
+	solverSem <- struct{}{}
+	defer func() { <-solverSem }()
+	if ctx.Err() != nil {
+		return solveResult{"unknown", "cancelled", sc.Name, 0}
+	}
 	t0 := time.Now()
 	args := sc.Args(file, timeoutS)
 	cctx, cancel := context.WithTimeout(ctx, time.Duration(timeoutS+2)*time.Second)
@@ -485,6 +496,34 @@ func (o *Obligation) Solve(timeoutS int, keep bool) {
 	if first > 3 {
 		first = 3
 	}
+	// quantifier-free relaxation first: dropping the quantified assumptions is sound for discharging
+	// (fewer hypotheses) and most obligations do not need them; it also tells apart a failing obligation
+	// (relaxation sat) from a slow one
+	o.relaxSat = false
+	o.timedOut = false
+	if o.Quant && !strings.Contains(o.Goal.String(), "(forall") && !strings.Contains(o.Goal.String(), "(exists") {
+		var rb strings.Builder
+		for _, line := range strings.Split(text, "\n") {
+			if strings.HasPrefix(line, "(assert ") && (strings.Contains(line, "(forall ") || strings.Contains(line, "(exists ")) {
+				continue
+			}
+			rb.WriteString(line + "\n")
+		}
+		rfile := strings.TrimSuffix(file, ".smt2") + ".relaxed.smt2"
+		os.WriteFile(rfile, []byte(rb.String()), 0644)
+		rr := runSolver(ctx, solvers[1], rfile, first)
+		if !keep {
+			os.Remove(rfile)
+		}
+		if rr.verdict == "unsat" {
+			o.Status, o.Solver = "discharged", rr.solver+"(qf-relaxation)"
+			return
+		}
+		if rr.verdict == "sat" {
+			o.relaxSat = true
+			o.relaxOut = rr.out
+		}
+	}
 	r := runSolver(ctx, solvers[1], file, first) // z3-new: best all-round in calibration
 	if r.verdict == "unsat" {
 		o.Status, o.Solver = "discharged", r.solver
@@ -500,15 +539,19 @@ func (o *Obligation) Solve(timeoutS int, keep bool) {
 		o.Status, o.Solver, o.Raw = "error", r.solver, firstLines(r.out, 4)
 		return
 	}
-	// race all three with the full timeout
-	ch := make(chan solveResult, len(solvers))
-	for _, sc := range solvers {
+	// race the portfolio with the full timeout
+	race := solvers
+	if os.Getenv("GOWP_NO_CVC5") != "" {
+		race = solvers[:2]
+	}
+	ch := make(chan solveResult, len(race))
+	for _, sc := range race {
 		sc := sc
 		go func() { ch <- runSolver(ctx, sc, file, timeoutS) }()
 	}
 	var last solveResult
 	errs := ""
-	for range solvers {
+	for range race {
 		r := <-ch
 		switch r.verdict {
 		case "unsat":
@@ -524,6 +567,13 @@ func (o *Obligation) Solve(timeoutS int, keep bool) {
 		last = r
 	}
 	o.Status, o.Solver, o.Raw = "unknown", "portfolio", errs+firstLines(last.out, 5)
+	o.timedOut = true
+	if o.relaxSat {
+		// the quantifier-free relaxation has a model and no solver proved the full obligation: reported as
+		// failing with the relaxation's model (the replay decides whether it is a real input)
+		o.Status, o.Solver, o.Raw = "failed", "portfolio+qf-relaxation-model", o.relaxOut
+		o.Model = parseModel(o.relaxOut)
+	}
 }
 
 func firstLines(s string, n int) string {
